@@ -281,9 +281,26 @@ func c14Extra(c *Ctx) {
 		st.SetTrailer(metadata.Pairs("x-c14-same", "trailer-value", "x-c14-same-bin", "tb1", "x-c14-same-bin", "tb2", "x-c14-only-t", "t"))
 		return nil
 	}
+	// header and trailer metadata under one key, and the handler returns WITHOUT having written anything
+	// (a failing unary call, a server stream that ends empty): the header value is still the header's
+	sameFail := func(ctx context.Context, in *dynamicpb.Message) (proto.Message, error) {
+		grpc.SetHeader(ctx, metadata.Pairs("x-c14-same", "header-value", "x-c14-same-bin", "hb", "x-c14-only-h", "h"))    //nolint
+		grpc.SetTrailer(ctx, metadata.Pairs("x-c14-same", "trailer-value", "x-c14-same-bin", "tb1", "x-c14-only-t", "t")) //nolint
+		return nil, status.Error(codes.FailedPrecondition, "c14 same-key failure")
+	}
+	sameEmpty := func(fx *Fixture, ms *MethodSpec, st grpc.ServerStream) error {
+		if err := st.RecvMsg(fx.NewMsg("Req")); err != nil {
+			return err
+		}
+		st.SetHeader(metadata.Pairs("x-c14-same", "header-value", "x-c14-same-bin", "hb", "x-c14-only-h", "h")) //nolint
+		st.SetTrailer(metadata.Pairs("x-c14-same", "trailer-value", "x-c14-same-bin", "tb1", "x-c14-only-t", "t"))
+		return nil
+	}
 	fx, err := NewFixture([]*MethodSpec{
 		{Name: "Dl", In: "Req", Out: "google.api.HttpBody", ServerStream: true, Stream: dl, Rule: getRule("/c14x/dl")},
 		{Name: "Same", In: "Req", Out: "Reply", ServerStream: true, Stream: same, Rule: getRule("/c14x/same")},
+		{Name: "SameFail", In: "Req", Out: "Reply", Unary: sameFail, Rule: getRule("/c14x/samefail")},
+		{Name: "SameEmpty", In: "Req", Out: "Reply", ServerStream: true, Stream: sameEmpty, Rule: getRule("/c14x/sameempty")},
 	}, nil)
 	if err != nil || fx.RegErr != nil || fx.RegPanic != nil {
 		c.SpecFail("fixture", "c14 extra", fmt.Sprint(err, fx.RegErr, fx.RegPanic), "", "C14/fixture", "fixture")
@@ -302,6 +319,21 @@ func c14Extra(c *Ctx) {
 		bin, _ := base64.RawStdEncoding.DecodeString(strings.TrimRight(h.Get("X-C14-Dl-Bin"), "="))
 		if pn != nil || rec.Code != 200 || rec.Body.String() != "download-bytes" || strings.Join(h.Values("X-C14-Dl"), ",") != "hv,hv2" || string(bin) != "\x00\xff" {
 			c.SpecFail("api-http-bodywriter-md", in, fmt.Sprintf("%d body=%q x-c14-dl=%q x-c14-dl-bin=%q panic=%v", rec.Code, truncS(rec.Body.String(), 40), h.Values("X-C14-Dl"), h.Get("X-C14-Dl-Bin"), pn), "200, the bytes, x-c14-dl=[hv hv2] and the -bin value", "C14/http/header-lost-before-bodywriter", "header metadata set before AsHTTPBodyWriter does not reach the HTTP client")
+		}
+	}
+	// HTTP transcoding: nothing written when the handler returns, one key in header and trailer metadata
+	for _, path := range []string{"/c14x/samefail", "/c14x/sameempty"} {
+		rec, pn := fx.Serve(httptest.NewRequest("GET", path, nil))
+		in := "GET " + path + ": x-c14-same set as header and as trailer, nothing written before the handler returns"
+		c.Eval("api-http-same-key", in, true)
+		if pn != nil {
+			c.SpecFail("api-http-same-key", in, fmt.Sprint("panic ", pn), "a response", "C14/http/panic", "panic")
+			continue
+		}
+		h := rec.Result().Header
+		bin, _ := base64.RawStdEncoding.DecodeString(strings.TrimRight(h.Get("X-C14-Same-Bin"), "="))
+		if h.Get("X-C14-Same") != "header-value" || string(bin) != "hb" || h.Get("X-C14-Only-H") != "h" {
+			c.SpecFail("api-http-same-key", in, fmt.Sprintf("%d x-c14-same=%q x-c14-same-bin=%q x-c14-only-h=%q", rec.Code, h.Values("X-C14-Same"), h.Values("X-C14-Same-Bin"), h.Values("X-C14-Only-H")), "x-c14-same=header-value, x-c14-same-bin=hb, x-c14-only-h=h", "C14/http/header-lost-same-key-as-trailer", "header metadata whose key the handler also used for a trailer does not reach the HTTP client")
 		}
 	}
 	// gRPC-web: the same key as header and as trailer
